@@ -30,20 +30,20 @@ def assist(project, source, position, filename=None, debug=False):
 
     debug and print_dump(source.tree)
 
+    prefix = re.split(r'\W', line)[-1]
     marked_import = get_marked_import(source.tree)
     if marked_import:
         head, tail = marked_import
         if tail is None:
             head, tail = split_pkg(head)
-            return tail, list_packages(project, head, filename)
+            return prefix, list_packages(project, head, filename)
         else:
             plist = list_packages(project, head, filename)
             module = project.get_nmodule(head, filename)
-            return tail, sorted(set(plist) | set(module.attr_list(ctx)))
+            return prefix, sorted(set(plist) | set(module.attr_list(ctx)))
 
     scope = extract_scope(source, project)
 
-    prefix = re.split(r'(\.|\s|\()', line)[-1]
     attr = get_marked_atribute(source.tree)
     names = {}
     if attr:
